@@ -2,8 +2,10 @@
 
 proof:   EpsieProps/C14.lean (partial: exact-arithmetic invariants and bounds; IEEE overflow only as the
          predicate `Representable`): C14_retry_bound(_monotone/_scale), C14_accept_mass_le, C14_ss_bounded,
-         C14_ss_never_raises, C14_veitch_bounded, C14_veitch_pos_partial, C14_veitch_guard_per_parameter,
-         C14_veitch_guard_mixed, C14_veitch_default_std_pos, C14_veitch_proportional, C14_at_loglambda_bounded,
+         C14_ss_never_raises, C14_veitch_bounded, C14_veitch_pos (every width positive under every history:
+         the guard keeps the old width when the new one would be <= 0, repo fix 36b7cfa), C14_veitch_never_raises,
+         C14_veitch_guard_per_parameter, C14_veitch_guard_mixed, C14_veitch_default_std_pos,
+         C14_veitch_proportional, C14_veitch_zero_width_excluded, C14_at_loglambda_bounded,
          C14_at_shape_admissible, C14_at_scale_admissible, C14_eig_cov_admissible, C14_vmf_kappa_pos,
          C14_vmf_no_raise, C14_vmf_logkappa_bounded, C14_vmf_logkappa_representable, C14_vmf_exact_never_raises,
          and C14_at_stall_exact / C14_at_stall_witness / C14_vmf_norm_underflow_witness
@@ -20,7 +22,12 @@ search:  real runs of every adaptive class and variant on flat / needle-like / s
          (Sivia-Skilling); target_rate, diagonal, componentwise (Andrieu-Thoms); cov0, target_rate,
          shuffle_rate (eigenvector); target_rate, radec, degs (solid angle) -- on flat targets, needles of
          relative width 1e-4 (long runs of rejections) and 1e-9 (everything rejected); the widths are tested
-         after every single update
+         after every single update (positive; Sivia-Skilling: never above max(initial scale, configured cap),
+         C14_ss_bounded, the cap being the explicit max_cov or the documented default).  Directed: target_rate
+         1/2 with the default initial widths (the first rejected update proposes a width of exactly 0: a
+         regression of 36b7cfa is reported as zero-width:<family>); ridge targets (one parameter 5e6 times
+         narrower than the others) for the full-covariance Andrieu-Thoms and the eigenvector proposals over a
+         long window (the learnt covariance becomes singular to any tolerance)
 """
 import json
 
@@ -72,7 +79,8 @@ def run(chk, tier, proof_ok):
     bad, first_zero = representable_probe()
     c = chk.coverage
     c['correspondence'] = {'adapt': cov}
-    c['search'] = dict(scov, oracle='scale attributes finite and admissible (widths > 0, covariance PSD, kappa > 0); '
+    c['search'] = dict(scov, oracle='scale attributes finite and admissible (widths > 0, covariance PSD, kappa > 0; '
+                       'Sivia-Skilling scale within max(initial scale, configured cap)); '
                        'no exception from Chain.step(); generator draws per jump within the budget '
                        '(<= 1e5 in one jump, mean <= 1e3 over every 100-step block)',
                        representable={'violations of the IEEE assumptions': bad, 'first kappa with normalisation 0': first_zero})
